@@ -21,7 +21,12 @@ def run_one(name):
         if b.returncode != 0:
             return name, False, 'patched tree does not build: ' + b.stderr[:500]
         work = tempfile.mkdtemp(prefix='govc-selftest-work-')
-        r = subprocess.run(['/verif/bin/govc', '-repo', tmp, '-prop', exp['prop'], '-no-evidence', '-no-replay', '-work', work],
+        cmd = ['/verif/bin/govc', '-repo', tmp, '-no-evidence', '-no-replay', '-work', work]
+        if exp.get('fn'):
+            cmd += ['-fn', exp['fn']]   # development mode: restrict to some functions, all properties
+        else:
+            cmd += ['-prop', exp['prop']]
+        r = subprocess.run(cmd,
                            env=ENV, capture_output=True, text=True)
         shutil.rmtree(work, ignore_errors=True)
         out = r.stdout
